@@ -60,6 +60,9 @@ pub fn used() -> usize {
 pub fn take_log() -> Vec<u64> {
     LOG.with(|l| std::mem::take(&mut *l.borrow_mut()))
 }
+pub fn peek_log() -> Vec<u64> {
+    LOG.with(|l| l.borrow().clone())
+}
 pub fn take_created() -> Vec<u64> {
     CREATED.with(|l| std::mem::take(&mut *l.borrow_mut()))
 }
@@ -135,6 +138,11 @@ pub trait Elem: Sized + Clone + 'static {
     }
     fn gen_cb() -> Self {
         Self::make(cb_value())
+    }
+    /// key function of `dedup_by_key`
+    fn key_cb(e: &mut Self) -> u64 {
+        e.ident();
+        cb_value()
     }
 }
 
